@@ -1,1 +1,28 @@
-fn main(){}
+//! E3 — export explorer. Every mode prints one JSON object on stdout.
+mod bfs;
+mod common;
+mod corpus;
+mod determ;
+mod graph;
+mod merge_mode;
+mod paths_mode;
+mod sched;
+
+fn main() {
+    let args: Vec<String> = std::env::args().skip(1).collect();
+    common::silence_panics();
+    let mode = args.first().cloned().unwrap_or_default();
+    match mode.as_str() {
+        "merge" => merge_mode::run(&args[1..]),
+        "sched" => sched::run(&args[1..]),
+        "bfs" => bfs::run(&args[1..]),
+        "faults" => bfs::run_faults(&args[1..]),
+        "paths" => paths_mode::run(&args[1..]),
+        "graph" => graph::run(&args[1..]),
+        "determ" => determ::run(&args[1..]),
+        other => {
+            eprintln!("unknown mode {other:?}");
+            std::process::exit(2);
+        }
+    }
+}
